@@ -195,18 +195,16 @@ def rand_bad(rng):
     ])
 
 
-# `http://` targets whose authority names no valid host:port. (A port above 65535 that is congruent
-# modulo 65536 to a port somebody listens on is kept out: the library truncates the number and
-# relays to that listener — finding F-C18-portwrap; VERIF_C18_PORTWRAP=1 adds it.)
-# (`http://:8080/` is kept out as well: the real make_address rejects ":8080" and the proxy looks that
-# "name" up, while the world model's syntactic literal test takes it for an IPv6 literal — model coarseness,
-# see TRUSTED in props/c18.py; ":8080x" takes the same path through forward_request.)
+# `http://` targets whose authority names no valid host:port. rand_bad_auth adds a port above 65535 that is
+# congruent modulo 65536 to the port the scenario's origins listen on (F43: the library used to truncate the
+# number and relay to that listener; since 99bb698 a port that does not fit 16 bits is a malformed request).
+# `http://:8080/`: the real make_address rejects ":8080" and the proxy looks that "name" up.
 BAD_AUTH = [b"http://10.0.0.3:65536/", b"http://10.0.0.3:99999/a", b"http://10.0.0.3:abc/", b"http://10.0.0.3:/", b"http://origin.test:/x",
-            b"http:///x", b"http://:8080x/", b"http://origin.test:65536/", b"http://[2001:db8::3]:65536/"]
+            b"http:///x", b"http://:8080x/", b"http://:8080/", b"http://origin.test:65536/", b"http://[2001:db8::3]:65536/"]
 
 
 def rand_bad_auth(rng, lport=8080):
-    pool = BAD_AUTH + ([b"http://10.0.0.3:%d/" % (65536 + lport)] if os.environ.get("VERIF_C18_PORTWRAP") else [])
+    pool = BAD_AUTH + [b"http://10.0.0.3:%d/secret" % (65536 + lport), b"http://origin.test:%d/" % (131072 + lport)]
     t = rng.choice(pool)
     hs = [(b"Host", b" " + t[7:].split(b"/")[0])] if rng.random() < 0.4 else []
     return request(rng.choice([b"GET", b"POST"]), t, hs)
@@ -395,7 +393,8 @@ def fam_cuts(tier, seed):
 
 
 BADS_LATER = [b"GET /relative HTTP/1.1\r\nHost: origin.test\r\n\r\n", b"GET https://origin.test/ HTTP/1.1\r\n\r\n", b"GARBAGE\r\n\r\n", b"\r\n\r\n",
-              b"GET  http://10.0.0.3/ HTTP/1.1\r\n\r\n", b"GET http://10.0.0.3:8080/ HTTP/1.1\r\nbroken header line\r\n\r\n", b"CONNECT 10.0.0.3:80 HTTP/1.1\r\n\r\n"]
+              b"GET  http://10.0.0.3/ HTTP/1.1\r\n\r\n", b"GET http://10.0.0.3:8080/ HTTP/1.1\r\nbroken header line\r\n\r\n", b"CONNECT 10.0.0.3:80 HTTP/1.1\r\n\r\n",
+              b"GET http://10.0.0.3:73616/b HTTP/1.1\r\n\r\n"]          # 73616 = 65536 + 8080: no port at all (F43)
 
 
 def fam_bad_later(tier):
